@@ -16,19 +16,19 @@
   (let ((s (labelPos L l)))
     (let ((m (firstIdxAbove s x 0)))
       (ite (< m (Slice<Int>.len s)) (select (Slice<Int>.arr s) m) (- 1)))))
-(define-fun-rec runL ((P seccomp.Program) (x Int) (A (_ BitVec 32))) Outcome
-  (let ((I (seccomp.Program.instructions P)))
+(define-fun-rec runL3 ((I Slice<I.bpf.Instruction>) (J Slice<seccomp.JumpIf>) (L Map<Int~Slice<Int>>) (x Int) (A (_ BitVec 32))) Outcome
+  (let ((unused 0))
   (ite (or (< x 0) (> x (plen I))) Stuck
   (ite (= x (plen I)) (Fall A)
   (let ((i (insnAt I x)))
   (ite ((_ is I.bpf.Instruction.box.bpf.RetConstant) i) (Ret (bpf.RetConstant.Val (I.bpf.Instruction.unbox.bpf.RetConstant i)))
   (ite ((_ is I.bpf.Instruction.box.bpf.LoadAbsolute) i)
-       (runL P (+ x 1) (word ev (bpf.LoadAbsolute.Off (I.bpf.Instruction.unbox.bpf.LoadAbsolute i))))
+       (runL3 I J L (+ x 1) (word ev (bpf.LoadAbsolute.Off (I.bpf.Instruction.unbox.bpf.LoadAbsolute i))))
   (ite ((_ is I.bpf.Instruction.box.bpf.JumpIf) i)
-       (let ((k (jidx (seccomp.Program.jumps P) x 0)) (j (I.bpf.Instruction.unbox.bpf.JumpIf i)))
-         (ite (>= k (Slice<seccomp.JumpIf>.len (seccomp.Program.jumps P))) Stuck
-           (let ((rec (select (Slice<seccomp.JumpIf>.arr (seccomp.Program.jumps P)) k)))
-             (let ((d (destOf (seccomp.Program.labels P)
+       (let ((k (jidx J x 0)) (j (I.bpf.Instruction.unbox.bpf.JumpIf i)))
+         (ite (>= k (Slice<seccomp.JumpIf>.len J)) Stuck
+           (let ((rec (select (Slice<seccomp.JumpIf>.arr J) k)))
+             (let ((d (destOf L
                               (ite (jtest (bpf.JumpIf.Cond j) A (bpf.JumpIf.Val j)) (seccomp.JumpIf.trueLabel rec) (seccomp.JumpIf.falseLabel rec)) x)))
-               (ite (<= d x) Stuck (runL P d A))))))
+               (ite (<= d x) Stuck (runL3 I J L d A))))))
        Stuck))))))))
